@@ -20,10 +20,11 @@
         style in effect, invert swapping against the configured defaults"); it abstains
         (N/A) outside the domain of C07, i.e. when the wincon model's merged runs are
         not spec_runs
-     svgraw  <pal> <fg> <bg> <flag> <input> <width_px> <fills>
-        the bytes of svg_print (hex); the two oracle quantities of unicode_width
-        come from the case line: <fills> = <hex of escaped fragment>=<cells>,.. or -
-     svg     <pal> <fg> <bg> <flag> <input>       as svgraw with a zero oracle (not compared) *)
+     svgraw  <pal> <fg> <bg> <flag> <input>
+        the bytes of the whole rendering (hex): Model/SvgWidth.v svg_m_render_uw -- the widths (width
+        attribute, background fills) are computed by the TRANSLATED unicode-width, the f64 product
+        is ceil(42 x / 5), min_width_px is the one the harness picks (a hash of the input)
+     svg     <pal> <fg> <bg> <flag> <input>       the same *)
 open Extracted
 open Util
 
@@ -108,21 +109,10 @@ let model_rows (d : svg_document) =
       svg_merge_pieces (List.map2 (fun (cl, text) bg -> ((cl, bg), text)) l.svg_l_fg bgs))
     d.svg_d_lines
 
-let oracle_of (s : string) : n list -> n =
-  if s = "-" then fun _ -> N0
-  else begin
-    let tbl = Hashtbl.create 16 in
-    List.iter
-      (fun item ->
-        match String.split_on_char '=' item with
-        | [ k; v ] -> Hashtbl.replace tbl k (int_of_string v)
-        | _ -> raise Bad_case)
-      (String.split_on_char ',' s);
-    fun t ->
-      let key = str_of t in
-      let hx = String.concat "" (List.map (fun c -> Printf.sprintf "%02x" (Char.code c)) (List.of_seq (String.to_seq key))) in
-      match Hashtbl.find_opt tbl hx with Some v -> n_of_int v | None -> N0
-  end
+(* harness/h-render/src/svg.rs picks `min_width_px` from a hash of the input bytes *)
+let harness_min_width (b : int list) : int =
+  let h = List.fold_left (fun a x -> ((a * 31) + x) land 0xFFFFFFFF) 7 b in
+  [| 720; 720; 10; 2000 |].(h mod 4)
 
 let run kind side f =
   try
@@ -148,8 +138,14 @@ let run kind side f =
               | `Text -> show_text_lines (List.map svg_line_text (svg_fg_lines d))
               | `Cls -> show_rows (model_rows d)
               | `Raw ->
-                  let w, fills = match rest with [ w; fl ] -> (int_of_string w, fl) | _ -> (0, "-") in
-                  let out = str_of (svg_m_print (n_of_int w) (oracle_of fills) d) in
+                  (* nothing is read off the real output: the widths are the TRANSLATED unicode-width's
+                     (Model/SvgWidth.v svg_m_render_uw = the translated render_svg, Props/C14.v
+                     c14_translated_unicodewidth_driver_model); extra fields of older replay files are ignored *)
+                  ignore rest;
+                  let out =
+                    str_of (unopt (svg_m_render_uw (palette_of pal) (colour_of fg) (colour_of bg) (flag = "1")
+                                     (n_of_int (harness_min_width (unhex input))) data))
+                  in
                   String.concat "" (List.map (fun c -> Printf.sprintf "%02x" (Char.code c)) (List.of_seq (String.to_seq out)))))
     | _ -> "BADCASE"
   with Bad_case | Failure _ | Invalid_argument _ -> "BADCASE"
